@@ -28,7 +28,7 @@ def run(ck):
     for m in MUTS:
         ck.mc_must_fail("MCTokGrammar", "C15_asfound_%s.cfg" % m, workers=8, timeout=900)
     exe = vlib.build("san", vlib.harness_sources(), "vh")
-    n = 2000 if thorough else 410
+    n = 8000 if thorough else 410
     tp = os.path.join(ck.dir, "v.ndjson")
     deaths = vlib.run_executions(exe, lambda st: ["tok", "depth-drive", st, n], n, tp, timeout=1200)
     vlib.conformance(ck, "V:documents-around-the-limit", "TraceTokGrammar", "trace.cfg", tp, deaths, diag_of, min_events=n, timeout=1800,
